@@ -446,6 +446,9 @@ class Run:
         finally:
             self.quiet = False
         self.flags['clear_while_events_were_pending'] += 1
+        for i in range(self.n):         # the program sets its scene up again (new handler objects)
+            if self.case.get('reg', 0) >> i & 1:
+                self.op_add(i)
 
     def op_gc(self):
         gc.collect()
